@@ -64,7 +64,7 @@ func ruleNoBlock(p *Program, r *Result) {
 func channelReceivers(p *Program, f *types.Var) []*ssa.Function {
 	var out []*ssa.Function
 	seen := map[*ssa.Function]bool{}
-	for _, g := range p.UFuncs() {
+	for _, g := range p.UUnits() {
 		for _, b := range g.Blocks {
 			for _, in := range b.Instrs {
 				var ch ssa.Value
@@ -114,7 +114,7 @@ func ruleReplyChannel(p *Program, r *Result, fn *ssa.Function, send *ssa.Send) {
 			answered := 0
 			bad := ""
 			for _, e := range p.goEntries() {
-				g := e.fn
+				g := p.view(e.fn)
 				var sends []*ssa.Send
 				for _, gb := range g.Blocks {
 					for _, gi := range gb.Instrs {
